@@ -47,4 +47,13 @@ def uniqueFilterCached (s : Screen) (v : View) : Except Err View :=
 def pnamesViaPmap (s : Screen) (sel : List Bool) : List Name :=
   (maskFilter s.pids sel).map (fun i => ((s.pmap.map (·.1))[i.toNat]?).getD [])
 
+/-- **S8-C14**: `subset_unobserved` selecting whole PLATES — every row whose plate contains no observed row
+    (`~np.isin(plate_ids, np.unique(plate_ids[observation_mask]))`) — instead of the rows where the mask is false -/
+def unobservedByPlates (pids : List Int) (mask : List Bool) : List Bool :=
+  pids.map (fun p => !(maskFilter pids mask).contains p)
+
+def subsetUnobservedByPlates (s : Screen) (pid : Nat) : Option View :=
+  let sel := unobservedByPlates s.pids s.mask
+  if sel.any id then some { parent := pid, sel := sel } else none
+
 end Batchie.Regress
